@@ -106,6 +106,57 @@ func findPooledTypes(P *Program) []*pooledType {
 	return out
 }
 
+// wholeObjectStore: the reset method assigns the whole object (`*o = T{...}`): go/ssa either zeroes *o and then stores
+// the named fields in place, or builds the literal in a temporary and copies it. It returns whether such an unconditional
+// assignment exists and the temporary (nil when built in place / zero value).
+func wholeObjectStore(reset *ssa.Function) (bool, ssa.Value) {
+	if reset == nil || len(reset.Params) == 0 {
+		return false, nil
+	}
+	found := false
+	var lit ssa.Value
+	eachInstr(reset, func(ins ssa.Instruction) {
+		s, ok := ins.(*ssa.Store)
+		if !ok || resolve(s.Addr) != ssa.Value(reset.Params[0]) || len(condFacts(s.Block())) != 0 {
+			return
+		}
+		if _, isPtr := s.Addr.Type().(*types.Pointer); !isPtr {
+			return
+		}
+		found = true
+		if ld, ok := s.Val.(*ssa.UnOp); ok && ld.Op == token.MUL {
+			if al, ok := ld.X.(*ssa.Alloc); ok {
+				lit = al
+			}
+		}
+	})
+	return found, lit
+}
+
+// wholeObjectSource: the value of a whole-object assignment in a reset method when it is neither the zero value nor a
+// literal built on the spot: a package-level template or some other long-lived object.
+func wholeObjectSource(reset *ssa.Function) ssa.Value {
+	var src ssa.Value
+	eachInstr(reset, func(ins ssa.Instruction) {
+		s, ok := ins.(*ssa.Store)
+		if !ok || len(reset.Params) == 0 || resolve(s.Addr) != ssa.Value(reset.Params[0]) {
+			return
+		}
+		if k, isK := s.Val.(*ssa.Const); isK && k.Value == nil {
+			return
+		}
+		if ld, ok := s.Val.(*ssa.UnOp); ok && ld.Op == token.MUL {
+			if _, isLit := ld.X.(*ssa.Alloc); isLit {
+				return
+			}
+			src = ld.X
+			return
+		}
+		src = s.Val
+	})
+	return src
+}
+
 // classifyPooledFields decides, for every reference-typed field of the pooled struct, whether the storage it
 // refers to survives the reset method (retained) or is dropped (set to nil / re-made unconditionally).
 func classifyPooledFields(P *Program, pt *pooledType, depth int) {
@@ -140,6 +191,10 @@ func classifyPooledFields(P *Program, pt *pooledType, depth int) {
 			}
 		})
 		if len(stores) == 0 {
+			if whole, _ := wholeObjectStore(reset); whole {
+				pt.dropped[fld.Name()] = "zeroed by the whole-object assignment in " + reset.Name()
+				continue
+			}
 			pt.retained[fld.Name()] = "never reassigned by " + reset.Name() + " (reset in place or kept)"
 			continue
 		}
@@ -950,6 +1005,25 @@ func init() {
 						continue
 					}
 					stored, subReset := false, false
+					if whole, _ := wholeObjectStore(f); whole {
+						stored = true // `*o = T{...}` writes every field
+						// ... but copied from a long-lived template, a reference field shares its storage with every other
+						// recycled object (unless the field is stored again afterwards)
+						if src := wholeObjectSource(f); src != nil && isRefType(fld.Type()) {
+							again := false
+							eachInstr(f, func(ins ssa.Instruction) {
+								if x, ok := ins.(*ssa.Store); ok {
+									if fa, ok := x.Addr.(*ssa.FieldAddr); ok && resolve(fa.X) == ssa.Value(f.Params[0]) && fa.Field == i {
+										again = true
+									}
+								}
+							})
+							if !again {
+								c.Violate(key+" / shared-template", f.Pos(), "field %s.%s is copied from %s by a whole-object assignment: every recycled object then refers to the same storage (a slice header with spare capacity, a map), so one entry's data lands in another's", t.Obj().Name(), fld.Name(), accessPath(src))
+								continue
+							}
+						}
+					}
 					eachInstr(f, func(ins ssa.Instruction) {
 						switch x := ins.(type) {
 						case *ssa.Store:
